@@ -26,6 +26,8 @@ def random_plan(rng, n_nodes, seq_ratio=(1, 4), wmax=8, kinds=None, allow_feedba
         plan['domains'][-1]['drv_name'] = rng.fork(('drvname', di)).choice([f'gclk{di + 1}', f'gclk{di + 1}', 'gclk', 'clk'])
     nodes = plan['nodes']
     comb = [k for k in COMB if (kinds is None or k in kinds)]
+    if kinds is not None and 'AsynchronousMemory' in kinds:
+        comb.append('AsynchronousMemory')     # only on request: a propagatable block with state (written inside propagate())
     seq = [k for k in SEQ if (kinds is None or k in kinds)]
 
     def width_of(ref):
@@ -109,6 +111,10 @@ def random_plan(rng, n_nodes, seq_ratio=(1, 4), wmax=8, kinds=None, allow_feedba
             nd['params']['values'] = [(rng.randint(-(1 << W), 1 << (W + 1)) if extreme else rng.randint(0, (1 << W) - 1))
                                       for _ in range(n)]
             nd['params']['once'] = bool(rng.randint(0, 1))
+            nd['outw'] = [W]
+        elif kind == 'AsynchronousMemory':
+            nd['ins'] = [pick(j), pick(j), pick(j, 1), pick(j)]
+            nd['params']['aw'] = rng.randint(1, 3)
             nd['outw'] = [W]
         elif kind == 'SynchronousMemory':
             nd['late'] = True
@@ -221,7 +227,7 @@ def build(plan, inst_order=None, wire_order=None, sysname=None, into=None, leaf_
             leaves[j] = S.Reg(sysobj, nm, ins[0], o[0], enable=e, reset=r, reset_value=p['reset_value'])
         elif k == 'Sequence':
             leaves[j] = SIM.Sequence(sysobj, nm, list(p['values']), o[0], once=p['once'])
-        elif k == 'SynchronousMemory':
+        elif k in ('SynchronousMemory', 'AsynchronousMemory'):
             aw = p['aw']
             # address wires of exactly aw bits fed through Bufs (width adaptation by the wire mask)
             ra = top.wire(nm + '_ra', aw)
@@ -232,7 +238,7 @@ def build(plan, inst_order=None, wire_order=None, sysname=None, into=None, leaf_
             B.Buf(sysobj, nm + '_bwa', ins[1], wa)
             B.Buf(sysobj, nm + '_bwe', ins[2], we)
             B.Buf(sysobj, nm + '_bwd', ins[3], wd)
-            leaves[j] = S.SynchronousMemory(sysobj, nm, ra, wa, we, o[0], wd)
+            leaves[j] = getattr(S, k)(sysobj, nm, ra, wa, we, o[0], wd)
         elif k == 'AutoReset':
             leaves[j] = C.AutoReset(sysobj, nm, o[0])
         else:
